@@ -267,6 +267,28 @@ def _fit(ct, tier, seed):
             if not ok:
                 fails.append({'clause': 'C10.fit.linear_in_the_data', 'draws': {'family': fam, 'N': N, 'seed': seed},
                               'note': 'fit(2.5 z) != 2.5 fit(z): max dev %.3e' % np.max(np.abs(c2 - 2.5 * c1))})
+    # several fits alive at once (one per field, one per data set): each keeps the coefficients of *its own* data
+    for fam in FAMILIES:
+        xs = rng.uniform(-0.7, 0.7, 60)
+        ys = rng.uniform(-0.7, 0.7, 60)
+        rr_, ph_ = np.sqrt(xs ** 2 + ys ** 2), np.arctan2(ys, xs)
+        ca, cb = rng.normal(size=6), rng.normal(size=10)
+        Za = getattr(zr, FAMILIES[fam][0])(list(ca))
+        Zb = getattr(zr, FAMILIES[fam][0])(list(cb))
+        za = np.array([Za.poly(r_, p_) for r_, p_ in zip(rr_, ph_)])
+        zb = np.array([Zb.poly(r_, p_) for r_, p_ in zip(rr_, ph_)])
+        fa = zr.ZernikeFit(xs, ys, za, fam, 6)
+        first = np.array(fa.coeffs, dtype=float).copy()
+        fb = zr.ZernikeFit(xs, ys, zb, fam, 10)                 # a later fit of the same family, other data, other size
+        cases += 1
+        ok = len(fa.coeffs) == 6 and np.allclose(np.array(fa.coeffs, dtype=float), first, rtol=0, atol=0) and np.allclose(first, ca, atol=1e-6) \
+            and np.allclose(np.array(fb.coeffs, dtype=float), cb, atol=1e-6)
+        back = np.array([fa.zernike.poly(r_, p_) for r_, p_ in zip(rr_, ph_)])
+        ok = ok and np.allclose(back, za, atol=1e-6)
+        _clause(clauses, 'C10.fit.an_earlier_fit_keeps_its_own_coefficients_when_another_fit_is_made', ok, fam, backend='runtime')
+        if not ok:
+            fails.append({'clause': 'C10.fit.an_earlier_fit_keeps_its_own_coefficients_when_another_fit_is_made', 'draws': {'family': fam, 'seed': seed},
+                          'note': 'first fit now reports %d coefficients %s (its data were generated from %s)' % (len(fa.coeffs), np.round(fa.coeffs, 3)[:6], np.round(ca, 3))})
     plain = all(k.get('loss', 'linear') == 'linear' and not a for a, k in calls)
     _clause(clauses, 'C10.fit.solver_called_with_plain_least_squares', plain, str(calls[:1]), backend='runtime')
     for c_ in clauses.values():
